@@ -2064,6 +2064,11 @@ class Interp:
                 return rebind(ListV(base.items + args[0].items, base.kind))
             if meth == "pop" and not args and base.items:
                 return rebind(ListV(base.items[:-1], base.kind), base.items[-1])
+            if meth == "pop" and len(args) == 1 and isinstance(args[0], Const) and isinstance(args[0].v, int) and base.kind == "list" \
+                    and -len(base.items) <= args[0].v < len(base.items):
+                items = list(base.items)
+                v = items.pop(args[0].v)
+                return rebind(ListV(items, base.kind), v)
             if meth == "copy":
                 return [(cfg, base)]
             if meth == "update" and len(args) == 1 and isinstance(args[0], ListV):
